@@ -1109,6 +1109,35 @@ func defectiveBytes(r *tr.Rng, tx *btcTx, cls *string) {
 	case 1:
 		tx.raw = append([]byte{}, tx.raw[:len(tx.raw)-1-r.Intn(3)]...)
 		*cls += "/tx-truncated"
+	case 2, 3, 4, 5:
+		// parser classes (GoatModel.BtcTx / C03T): the vote is over these bytes, so the parser alone decides
+		var m wire.MsgTx
+		if err := m.DeserializeNoWitness(bytes.NewReader(tx.raw)); err != nil || len(m.TxIn) == 0 || len(m.TxIn) >= 0xfd || len(m.TxOut) >= 0xfd {
+			return
+		}
+		insEnd := 5
+		for _, in := range m.TxIn {
+			insEnd += in.SerializeSize()
+		}
+		var buf bytes.Buffer
+		switch r.Intn(4) {
+		case 0: // the input count as a three-byte var-int: refused as non-canonical
+			tx.raw = append(append(append([]byte{}, tx.raw[:4]...), 0xfd, tx.raw[4], 0), tx.raw[5:]...)
+			*cls += "/tx-noncanonical-incount"
+		case 1: // the output count as a three-byte var-int
+			tx.raw = append(append(append([]byte{}, tx.raw[:insEnd]...), 0xfd, tx.raw[insEnd], 0), tx.raw[insEnd+1:]...)
+			*cls += "/tx-noncanonical-outcount"
+		case 2: // the same outputs spent from no input at all: the no-witness parser accepts a zero input count
+			m.TxIn = nil
+			_ = m.SerializeNoWitness(&buf)
+			tx.raw = buf.Bytes()
+			*cls += "/tx-zero-inputs"
+		case 3: // the segwit serialisation (marker 00, flag 01) offered to the no-witness parser
+			m.TxIn[0].Witness = wire.TxWitness{[]byte{1}}
+			_ = m.Serialize(&buf)
+			tx.raw = buf.Bytes()
+			*cls += "/tx-witness-serialised"
+		}
 	default:
 		return
 	}
